@@ -10,10 +10,20 @@ fn arg<'a>(args: &'a [String], name: &str) -> Option<&'a str> {
 	args.iter().position(|a| a == name).and_then(|i| args.get(i + 1)).map(|s| s.as_str())
 }
 
+type RunFn = fn(&[u64], bool, &std::path::Path, &mut Trace, &mut Counters, &str) -> u64;
+
+fn dispatch(cmd: &str) -> Option<RunFn> {
+	Some(match cmd {
+		"p1" => p1::run,
+		"c19" => c19::run,
+		_ => return None,
+	})
+}
+
 fn main() {
 	let args: Vec<String> = std::env::args().collect();
 	if args.len() < 2 {
-		eprintln!("usage: pdbverif <p1|...> --prop Cxx --seed N --cases N --out FILE [--thorough]");
+		eprintln!("usage: pdbverif <cmd> --prop Cxx --seed N --cases N --out FILE [--thorough] [--case-seed S]");
 		std::process::exit(2);
 	}
 	let cmd = args[1].as_str();
@@ -23,36 +33,25 @@ fn main() {
 	let prop = arg(&args, "--prop").unwrap_or("C01").to_string();
 	let thorough = args.iter().any(|a| a == "--thorough");
 	let only_case: Option<u64> = arg(&args, "--case-seed").map(|s| s.parse().unwrap());
+	let f = match dispatch(cmd) {
+		Some(f) => f,
+		None => {
+			eprintln!("unknown command {}", cmd);
+			std::process::exit(2);
+		},
+	};
 	let root = scratch_root();
 	let mut t = Trace::new(out);
 	let mut ctr = Counters::new();
-	// silence panics' default printing for catch_unwind sites
 	let mut master = Rng::new(seed);
 	let seeds: Vec<u64> = match only_case {
 		Some(s) => vec![s],
 		None => (0..cases).map(|_| master.next() >> 16).collect(),
 	};
-	let code = match cmd {
-		"p1" => {
-			let p = p1::params_for(&prop, thorough);
-			let mut fails = 0;
-			for s in seeds {
-				if !p1::run_case(s, &p, &root, &mut t, &mut ctr, &prop) {
-					fails += 1;
-					t.comment(&format!("FAILED-CASE seed={}", s));
-				}
-			}
-			fails
-		},
-		"c19" => c19::run(&seeds, &mut t, &mut ctr, &prop),
-		_ => {
-			eprintln!("unknown command {}", cmd);
-			2
-		},
-	};
+	let fails = f(&seeds, thorough, &root, &mut t, &mut ctr, &prop);
 	ctr.dump(&mut t);
 	t.stat("oracle_failures", &t.oracle_failures.to_string());
 	t.flush();
 	let _ = std::fs::remove_dir_all(&root);
-	std::process::exit(if code == 0 { 0 } else { 1 });
+	std::process::exit(if fails == 0 { 0 } else { 1 });
 }
